@@ -176,8 +176,20 @@ where
   /// that the returned `Entry` has exclusive access. This atomicity allows for
   /// safe "get-or-insert" operations.
   pub fn entry(&self, key: K) -> Entry<'_, K, V, H> {
-    let shard = self.shared.store.get_shard(&key);
-    let guard = shard.map.write();
+    let shard_index = self.shared.get_shard_index(&key);
+    let shard = &self.shared.store.shards[shard_index];
+    let mut guard = shard.map.write();
+
+    // An expired entry must not be served through `OccupiedEntry::get`: collect it here
+    // and report the slot as vacant, as every other read path does.
+    if guard
+      .get(&key)
+      .map_or(false, |e| e.is_expired(self.shared.time_to_idle))
+    {
+      if let Some(old) = guard.remove(&key) {
+        self.shared.discard_expired_entry(shard, shard_index, &key, old);
+      }
+    }
 
     if guard.contains_key(&key) {
       Entry::Occupied(OccupiedEntry {
